@@ -1,4 +1,4 @@
-CONSTANTS Scope = "ext" OneByOne = TRUE Mutant = "none"
+CONSTANTS Scope = "ext" OneByOne = FALSE Mutant = "none"
 SPECIFICATION Spec
 INVARIANT TypeOK
 INVARIANT Inv_Fail
